@@ -542,8 +542,40 @@ def judge_sastype(ctx, c):
                          f'{vals[1]!r:.60} -> {got[1].tolist()!r:.60}, Array(dtype, values) gives {ref[1].tolist()!r:.60}')
 
 
+def judge_sauto(ctx, c):
+    """Array(Dtype(fmt, scale='auto'), values): whatever scale is chosen, it is an ordinary scale from then on - the codes are
+    those of building the same values with that scale given explicitly, and the items read back as decoded code x scale."""
+    fmt, mode = c['fmt'], c['mode']
+    vals = [unhx(v) for v in c['vals']]
+    with util.options(mxfp_overflow=mode, lsb0=False):
+        got = call(lambda: Array(Dtype(c['nm'], scale='auto'), vals))
+        ctx.op('auto-scale', outcome(got))
+        if got[0] == 'exc':
+            if isinstance(got[1], (ValueError, TypeError)):
+                ctx.ok((fmt, 'sauto', 'refused'), True)
+            else:
+                ctx.mismatch(f'C11|auto-scale|{fmt}|raised:{type(got[1]).__name__}', c, f'{got[1]!s:.100}')
+            return
+        a = got[1]
+        sc = a.dtype.scale
+        if not isinstance(sc, (int, float)) or isinstance(sc, bool) or not (sc > 0) or math.isinf(sc) or math.frexp(sc)[0] != 0.5:
+            ctx.mismatch(f'C11|auto-scale|{fmt}|scale-not-a-power-of-two', c, f'{sc!r}')
+            return
+        ref = call(lambda: Array(Dtype(c['nm'], scale=sc), vals))
+        if ref[0] != 'ok' or ref[1].data != a.data or len(a) != len(vals):
+            ctx.mismatch(f'C11|auto-scale|{fmt}|codes-differ-from-explicit-scale', c,
+                         f'scale {sc!r}: {a.data!s:.60} vs {(ref[1].data if ref[0] == "ok" else ref[1])!s:.60}')
+            return
+        plain = Array(Dtype(c['nm']), a.data).tolist()
+        back = a.tolist()
+        if any(not same_number(p_ * sc, b) for b, p_ in zip(back, plain)):
+            ctx.mismatch(f'C11|auto-scale|{fmt}|items-not-code-value-times-scale', c, f'scale {sc!r}: {back!r:.60} vs codes {plain!r:.60}')
+            return
+        ctx.ok((fmt, 'sauto', len(vals), sc >= 1), True)
+
+
 JUDGES = {'enc': judge_enc, 'enc16': judge_enc16, 'dec': judge_dec, 'rt': judge_rt, 'sdec': judge_sdec,
-          'senc': judge_senc, 'sastype': judge_sastype}
+          'senc': judge_senc, 'sastype': judge_sastype, 'sauto': judge_sauto}
 
 
 def judge(ctx, case):
@@ -838,6 +870,18 @@ def run(ctx):
         c = {'k': 'sastype', 'fmt': fmt, 'nm': spell(fmt), 'mode': rng.choice(modes_of(fmt)), 'from': rng.choice([None, None, rng.choice(SCALES)]),
              'to': rng.choice([None, rng.choice(SCALES), rng.choice(SCALES)]), 'codes': [rng.randrange(codec.ncodes) for _ in range(rng.choice([1, 2, 5]))]}
         ctx.run_case(judge, c)
+    for i in range(ctx.scale(1500, 40000)):
+        fmt = rng.choice(FORMATS)
+        mags = [rng.choice(GLOBAL_POOL), rng.uniform(0, 10) * 2.0 ** rng.randint(-160, 160), float(rng.randint(0, 10 ** 6)), 0.0, rng.random()]
+        vals = [rng.choice(mags) * rng.choice([1, -1]) for _ in range(rng.choice([1, 1, 2, 5]))]
+        if rng.random() < 0.05:
+            vals[rng.randrange(len(vals))] = rng.choice([math.inf, -math.inf, math.nan])
+        if rng.random() < 0.02:
+            vals = []
+        c = {'k': 'sauto', 'fmt': fmt, 'nm': spell(fmt), 'mode': rng.choice(modes_of(fmt)), 'vals': [hx(v) for v in vals]}
+        ctx.run_case(judge, c)
+        if i % 499 == 0:
+            ctx.sample(c)
     lap('5 scaled')
 
 
